@@ -90,7 +90,7 @@ Definition dev_ok (e : ment) : bool :=
 (* classes of two more findings: line over glibc's buffer (known), non-UTF-8 type/options (fixed) *)
 Definition short_line (e : ment) : bool := (length (k_mount_line e) <=? 4095)%nat.
 Definition utf8_ok (e : ment) : bool := utf8_valid (m_type e) && utf8_valid (m_opts e).
-(* devices whose name psutil replaces by consulting the live /sys (outside the model) *)
+(* entries whose device is not one of the two spellings of the root device (only used by older witnesses) *)
 Definition plain_dev (e : ment) : bool :=
   negb (beqb (m_dev e) (bs "/dev/root")) && negb (beqb (m_dev e) (bs "rootfs")).
 
@@ -108,14 +108,20 @@ Definition wf_fs (f : kfs) : bool :=
 Definition disk_backed (fs : list kfs) (t : bytes) : bool :=
   existsb (fun f => beqb t (fs_name f) && (negb (fs_nodev f) || beqb (fs_name f) (bs "zfs"))) fs.
 
-(* device 'none' shown as ''; without all=True only entries with a device and a disk-backed type *)
-Definition spec_part (all : bool) (fs : list kfs) (e : ment) : option ment :=
-  let device := if beqb (m_dev e) (bs "none") then [] else m_dev e in
+(* device 'none' shown as ''; the two spellings of "the root device" ("/dev/root", "rootfs") replaced by the real root
+   device [root] when it is known and left as they are otherwise -- each entry by itself; without all=True only
+   entries with a device and a disk-backed type *)
+Definition spec_device (root : option bytes) (dev : bytes) : bytes :=
+  if beqb dev (bs "none") then []
+  else if beqb dev (bs "/dev/root") || beqb dev (bs "rootfs") then (match root with Some p => p | None => dev end)
+  else dev.
+Definition spec_part (all : bool) (fs : list kfs) (root : option bytes) (e : ment) : option ment :=
+  let device := spec_device root (m_dev e) in
   if all || (match device with [] => false | _ => true end && disk_backed fs (m_type e))
   then Some {| m_dev := device; m_dir := m_dir e; m_type := m_type e; m_opts := m_opts e |}
   else None.
-Definition spec_partitions (all : bool) (fs : list kfs) (es : list ment) : list ment :=
-  filter_some (map (spec_part all fs) es).
+Definition spec_partitions (all : bool) (fs : list kfs) (root : option bytes) (es : list ment) : list ment :=
+  filter_some (map (spec_part all fs root) es).
 
 (* =========================================================== interface flags *)
 Definition spec_iff : list (Z * string) :=
